@@ -232,6 +232,7 @@ pub fn check_noisy_read(
     doc: &[u8],
     order_insensitive: bool,
     identity_required: bool,
+    equal_to_twin_required: bool,
 ) -> Verdict {
     let (hard, calls) = h.with(|s| (s.hard_fired, s.calls));
     h.absorb(ctx, plan.fail_at.is_some());
@@ -280,6 +281,7 @@ pub fn check_noisy_read(
         }
         ensure!(
             order_insensitive
+                || !equal_to_twin_required
                 || (p1.items.len() <= p0.items.len() && p1.items[..] == p0.items[..p1.items.len()]),
             format!("read_error_not_prefix/{fam}"),
             "{fname}: items delivered before the read fault are not a prefix of the fault-free delivery"
@@ -294,6 +296,13 @@ pub fn check_noisy_read(
                     &p1.items.iter().cloned().collect(),
                 )
                 .is_yes());
+        if !equal_to_twin_required {
+            // C08 does not promise delivery independence (only totality): count, do not flag
+            if !(same_verdict && same_items) {
+                ctx.probe("delivery_dependent_result_(not_a_violation_of_totality)");
+            }
+            return Ok(());
+        }
         ensure!(
             same_verdict && same_items,
             format!("read_noise_changes_result/{fam}"),
@@ -443,7 +452,7 @@ pub fn run_roundtrip(ctx: &mut Ctx, spec: &RtSpec<'_>) -> Verdict {
         let rd = SimReader::new(doc.clone(), rplan.clone());
         let h = rd.handle();
         let p1 = do_parse(fmt, hs, rd);
-        check_noisy_read(ctx, &fam, &fname, &p0, &p1, &h, &rplan, &doc, fmt.hash_sensitive(), true)?;
+        check_noisy_read(ctx, &fam, &fname, &p0, &p1, &h, &rplan, &doc, fmt.hash_sensitive(), true, true)?;
     }
     Ok(())
 }
